@@ -8,6 +8,7 @@ import (
 	"fmt"
 	"io"
 	"math"
+	"math/big"
 	"sort"
 	"strconv"
 	"strings"
@@ -377,7 +378,10 @@ intLiteral
 	{
 		// remove separator "_"s
 		intStr := strings.Replace($1.Literal, "_", "", -1)
-		n, _ := strconv.ParseInt(intStr, 10, 64)
+		n, err := strconv.ParseInt(intStr, 10, 64)
+		if err != nil {
+			yylex.Error(fmt.Sprintf("int literal `%s` cannot be represented: %s", $1.Literal, err.Error()))
+		}
 		$$ = &ast.IntLiteral{
 			Token: $1.Literal,
 			Value: n,
@@ -390,7 +394,10 @@ intLiteral
 		lit := strings.Replace($1.Literal, "_", "", -1)
 		// remove prefix "0x"
 		intStr := lit[2:]
-		n, _ := strconv.ParseInt(intStr, 16, 64)
+		n, err := strconv.ParseInt(intStr, 16, 64)
+		if err != nil {
+			yylex.Error(fmt.Sprintf("int literal `%s` cannot be represented: %s", $1.Literal, err.Error()))
+		}
 		$$ = &ast.IntLiteral{
 			Token: $1.Literal,
 			Value: n,
@@ -403,7 +410,10 @@ intLiteral
 		lit := strings.Replace($1.Literal, "_", "", -1)
 		// remove prefix "0o"
 		intStr := lit[2:]
-		n, _ := strconv.ParseInt(intStr, 8, 64)
+		n, err := strconv.ParseInt(intStr, 8, 64)
+		if err != nil {
+			yylex.Error(fmt.Sprintf("int literal `%s` cannot be represented: %s", $1.Literal, err.Error()))
+		}
 		$$ = &ast.IntLiteral{
 			Token: $1.Literal,
 			Value: n,
@@ -416,7 +426,10 @@ intLiteral
 		lit := strings.Replace($1.Literal, "_", "", -1)
 		// remove prefix "0b"
 		intStr := lit[2:]
-		n, _ := strconv.ParseInt(intStr, 2, 64)
+		n, err := strconv.ParseInt(intStr, 2, 64)
+		if err != nil {
+			yylex.Error(fmt.Sprintf("int literal `%s` cannot be represented: %s", $1.Literal, err.Error()))
+		}
 		$$ = &ast.IntLiteral{
 			Token: $1.Literal,
 			Value: n,
@@ -429,13 +442,13 @@ intLiteral
 		lit := strings.Replace($1.Literal, "_", "", -1)
 		// NOTE: ToLower is nesessary (to split by both e and E)
 		toks := strings.Split(strings.ToLower(lit), "e")
-		// NOTE: cast float to deal with minus exp (i.e. `100e-2 == 1`)
-		val, _ := strconv.ParseFloat(toks[0], 64)
-		// NOTE: cannot use ParseInt (math.Pow requires float)
-		exp, _ := strconv.ParseFloat(toks[1], 64)
+		n, err := expIntValue(toks[0], toks[1])
+		if err != nil {
+			yylex.Error(fmt.Sprintf("int literal `%s` cannot be represented: %s", $1.Literal, err.Error()))
+		}
 		$$ = &ast.IntLiteral{
 			Token: $1.Literal,
-			Value: int64(val * math.Pow(10, exp)),
+			Value: n,
 			Src: yylex.(*Lexer).Source,
 		}
 	}
@@ -1144,7 +1157,10 @@ strLiteral
 	{
 		// unquote escape sequences here
 		// NOTE: backquotes are unwraped in Unquote
-		unquoted, _ := strconv.Unquote($1.Literal)
+		unquoted, err := strconv.Unquote($1.Literal)
+		if err != nil {
+			yylex.Error(fmt.Sprintf("str literal %s contains an invalid escape sequence", $1.Literal))
+		}
 		$$ = &ast.StrLiteral{
 			Token: $1.Literal,
 			Value: unquoted,
@@ -1246,7 +1262,10 @@ embeddedStr
 	{
 		// unquote escape sequences here
 		// NOTE: doublequotes are unwraped in Unquote
-		unquoted, _ := strconv.Unquote("\""+$2.Literal[1:])
+		unquoted, err := strconv.Unquote("\""+$2.Literal[1:])
+		if err != nil {
+			yylex.Error(fmt.Sprintf("embedded str piece %s contains an invalid escape sequence", $2.Literal))
+		}
 		$$ = &ast.EmbeddedStr{
 			Token: $1.Token,
 			Former: $1,
@@ -1260,7 +1279,10 @@ formerStrPiece
 	{
 		// unquote escape sequences here
 		// NOTE: doublequotes are unwraped in Unquote
-		unquoted, _ := strconv.Unquote("\""+$2.Literal[1:len($2.Literal)-2]+"\"")
+		unquoted, err := strconv.Unquote("\""+$2.Literal[1:len($2.Literal)-2]+"\"")
+		if err != nil {
+			yylex.Error(fmt.Sprintf("embedded str piece %s contains an invalid escape sequence", $2.Literal))
+		}
 		$$ = &ast.FormerStrPiece{
 			Token: $1.Token,
 			Former: $1,
@@ -1272,7 +1294,10 @@ formerStrPiece
 	{
 		// unquote escape sequences here
 		// NOTE: doublequotes are unwraped in Unquote
-		unquoted, _ := strconv.Unquote($1.Literal[:len($1.Literal)-2]+"\"")
+		unquoted, err := strconv.Unquote($1.Literal[:len($1.Literal)-2]+"\"")
+		if err != nil {
+			yylex.Error(fmt.Sprintf("embedded str piece %s contains an invalid escape sequence", $1.Literal))
+		}
 		$$ = &ast.FormerStrPiece{
 			Token: $1.Literal,
 			Former: nil,
@@ -2152,6 +2177,28 @@ type Lexer struct {
 	program      ast.Node
 	Source		 *ast.Source
 	curRule		 string
+}
+
+// expIntValue returns the exact value of int literal `<mantissa>e<exp>`.
+func expIntValue(mantissa, exp string) (int64, error) {
+	m, ok := new(big.Int).SetString(mantissa, 10)
+	if !ok {
+		return 0, fmt.Errorf("invalid mantissa")
+	}
+	e, err := strconv.ParseInt(exp, 10, 64)
+	if err != nil || e > 10000 || e < -10000 {
+		return 0, fmt.Errorf("exponent out of range")
+	}
+	if e >= 0 {
+		m.Mul(m, new(big.Int).Exp(big.NewInt(10), big.NewInt(e), nil))
+	} else {
+		// NOTE: minus exp is truncated to integer (i.e. `100e-2 == 1`, `1e-3 == 0`)
+		m.Quo(m, new(big.Int).Exp(big.NewInt(10), big.NewInt(-e), nil))
+	}
+	if !m.IsInt64() {
+		return 0, fmt.Errorf("value out of range")
+	}
+	return m.Int64(), nil
 }
 
 func tokenTypes() []simplexer.TokenType{
